@@ -1011,6 +1011,7 @@ where
 
     fn next(&mut self) -> Option<Self::Item>
     {
+      let mut table = loop {
         if self.current_table.is_none() {
             if self.parser.remaining() == 0 {
                 return None;
@@ -1039,7 +1040,13 @@ where
             }
         }
 
-        let mut table = self.current_table.take().unwrap();
+        let table = self.current_table.take().unwrap();
+        // a table without entries (Entry Count 0) yields nothing: go on to
+        // the next record
+        if table.entries.remaining() != 0 {
+            break table;
+        }
+      };
         let re = RibEntry::parse(&mut table.entries).unwrap();
         let peer = self.peer_index.get(&re).unwrap();
         // XXX here we probably need a PduParseInfo::mrt()
